@@ -38,10 +38,16 @@ class Host:
 
     def start(self, top, root, cfg, ops, seed, pl):
         """begin a run; returns a Session the controller steps through"""
+        prev = getattr(self, "session", None)
+        if prev is not None and not prev.done:
+            # a previous run was abandoned half-way (e.g. the code under test raised in the controller):
+            # let its writer child run to completion before the next command, or both sides wait forever
+            prev.finish()
         cmd = {"top": top, "root": root, "cfg": dict(cfg), "ops": [list(o) for o in ops], "seed": seed, "plan": pl}
         self.proc.stdin.write(json.dumps(cmd) + "\n")
         self.proc.stdin.flush()
-        return Session(self)
+        self.session = Session(self)
+        return self.session
 
     def run(self, top, root, cfg, ops, seed, pl, on_pause=None):
         """returns dict(ops=[...], calls=[...], status=int, killed_at=...)"""
